@@ -425,6 +425,38 @@ pub fn sweep(rep: &mut Report, judge: Judge) {
         agg
     });
     rep.agg.merge(a);
+    // sources larger than the 1 MiB refill buffer, chunks larger than it, default parameters
+    let big: Vec<(Cfg, Comp, usize)> = vec![
+        (Cfg::new(Algo::Roll, 64, 16 * 1024, 16 * 1024 * 1024, 15), Comp::Brotli(1), 3 * 1024 * 1024 + 5),
+        (Cfg::fixed(1024 * 1024 + 1), Comp::None, 2 * 1024 * 1024 + 7),
+        (Cfg::new(Algo::Buz, 16, 1024 * 1024 + 512, 2 * 1024 * 1024, 20), Comp::Zstd(1), 2 * 1024 * 1024 + 4097),
+        (Cfg::new(Algo::Roll, 64, 16 * 1024, 16 * 1024 * 1024, 15), Comp::None, 1024 * 1024),
+        (Cfg::new(Algo::Roll, 64, 16 * 1024, 16 * 1024 * 1024, 15), Comp::None, 1024 * 1024 + 1),
+    ];
+    let big_ref = &big;
+    let b = par_shards(big.len(), threads(), |i| {
+        let (cfg, comp, n) = big_ref[i].clone();
+        let mut agg = Agg::default();
+        let rt = tokio::runtime::Builder::new_current_thread().enable_all().build().unwrap();
+        let dir = scratch_dir("c01big");
+        let mut x: u32 = 77 + i as u32;
+        let source: Vec<u8> = (0..n)
+            .map(|j| {
+                x ^= x << 13;
+                x ^= x >> 17;
+                x ^= x << 5;
+                if (j / 40_000) % 4 == 1 { 0 } else { (x >> 7) as u8 }
+            })
+            .collect();
+        let case = Case { cfg, comp, hash_len: 64, buffers: 4, source };
+        agg.add("library_roundtrips", 1);
+        agg.add("large_source_roundtrips", 2);
+        lib_roundtrip(&rt, &case, &mut agg, judge);
+        agg.add("cli_roundtrips", 1);
+        cli_roundtrip(&rt, dir.path(), &case, &mut agg, judge);
+        agg
+    });
+    rep.agg.merge(b);
 }
 
 pub fn c01(rep: &mut Report) {
